@@ -273,8 +273,16 @@ def ex_repeat(c):
     x, y = xarr(c["x"], c.get("container", "array"), off), arr(c["y"], c.get("container", "array"))
     rr = np.int64(c["r"]) if c.get("r_kind") == "np" else c["r"]
     oc, o = guarded(lambda: proc.repeat(x, y, rr))
-    woc, w, _ = wrun(x, y, lambda w: w.repeat(rr))
-    e = dict(c)
+    if "x0" in c:       # Weaver-level: the repeat is requested after a history (`pre`) that leads from (x0, y0) to (x, y)
+        def go(w):
+            for op in c["pre"]:
+                wcall(w, op)
+            return w.repeat(rr)
+        woc, w, _ = wrun(arr(c["x0"]), arr(c["y0"]), go)
+    else:
+        woc, w, _ = wrun(x, y, lambda w: w.repeat(rr))
+    e = {k: v for k, v in c.items() if k not in ("x0", "y0", "pre")}
+    e["reshaped"] = "x0" in c
     e.update(outcome=oc, outx=xvec(o[0], off) if oc == "ok" else [], outy=vec(o[1]) if oc == "ok" else [], w_outcome=woc)
     e.update(wfields(w, woc, off=off))
     return e
@@ -352,9 +360,12 @@ def poly(c):
 
 
 def ex_trend(c):
-    x0, y0 = arr(c["x"], c.get("container", "array")), arr(c["y"], c.get("container", "array"))
+    x0, y0 = arr(c["x"], c.get("xcontainer", c.get("container", "array"))), arr(c["y"], c.get("container", "array"))
     xc, yc = np.array(x0, copy=True), np.array(y0, copy=True)
     f = poly(c["c"])
+    if c.get("intcoef"):          # a callable written with integer coefficients: c0 + c1*t + c2*t*t evaluated on whatever t it is handed
+        i0, i1, i2 = (int(r[0]) for r in c["c"])
+        f = lambda t: i0 + i1 * t + i2 * t * t
     seen = []
 
     def rec(t):
@@ -524,6 +535,13 @@ def _sampler(kind):
 
 
 def rfa_run(c, x, y):
+    if c["strategy"] == "FunctionSubclass":       # the other documented way: override _get_sampling_function, no supplier argument
+        class _Sub(rfa_mod.FunctionRFA):
+            def _get_sampling_function(self):
+                return lambda v: np.interp(v, self.x, self.y)
+        obj = _Sub(x, y, c["n"])
+        xs, ys = obj.rfa()
+        return xs, ys, [], []
     if c["strategy"].startswith("Function"):
         obj = rfa_mod.FunctionRFA(x, y, c["n"], sampling_function_supplier=_sampler(c["strategy"]))
         xs, ys = obj.rfa()
@@ -800,7 +818,7 @@ def ex_pipeline(c):
     e.update(outcome="ok", kind=kx if kx == ky else kx + "/" + ky, yf=fxs(y0 * sc), out=vec(ga * sc) if ga.ndim == 1 else [[5, 0, 0]],
              nthbits=[bits3(v) for v in gxa[::c["n"]]], scale_pow10=p,
              avgxbits=[bits3(v) for v in av[0]] if aoc == "ok" else [], avgy=fxs((np.asarray(av[1]) - L) * sc) if aoc == "ok" else [])
-    if c.get("wide") and c["trule"] == "rectangle" and ga.ndim == 1 and len(ga) == (len(y0) - 1) * c["n"] + 1 and np.all(y0[:-1] != 0):
+    if (c.get("wide") or c.get("rel")) and c["trule"] == "rectangle" and ga.ndim == 1 and len(ga) == (len(y0) - 1) * c["n"] + 1 and np.all(y0[:-1] != 0):
         # wide dynamic range: every interval's samples relative to that interval's own original average (see JPipeline)
         e["norm"] = [fxs(ga[k * c["n"]:(k + 1) * c["n"]] / y0[k]) for k in range(len(y0) - 1)]
     return e
@@ -1081,7 +1099,13 @@ def ex_noise(c):
             del kw["std"]
     else:
         v = [fl(r) for r in c["snr"]]
-        kw = {"snr": v[0] if len(v) == 1 else (v if c.get("snr_container") == "list" else np.array(v)), "snr_in_db": c["mode"] == "db"}
+        sc_ = c.get("snr_container")
+        if sc_ in ("uint8", "uint16", "int64", "int8") and all(r[1] == 1 and np.iinfo(sc_).min <= r[0] <= np.iinfo(sc_).max for r in c["snr"]):
+            iv = np.array([r[0] for r in c["snr"]], dtype=sc_)           # integer-typed snr (array, or a NumPy scalar)
+            snr_arg = iv[0] if len(iv) == 1 else iv
+        else:
+            snr_arg = v[0] if len(v) == 1 else (v if sc_ == "list" else np.array(v))
+        kw = {"snr": snr_arg, "snr_in_db": c["mode"] == "db"}
         if c["mode"] == "db" and len(c["a"]) % 2 == 0:           # decibel is the documented default scale
             del kw["snr_in_db"]
 
@@ -1145,6 +1169,13 @@ def ex_smooth(c):
             w3.smooth(len(y0) * float(np.var(y0)))
             f = fresh().to_function()
             fv = np.asarray(f(x0), dtype=float)
+            w5 = fresh()                      # requested, then again after steps that change x only
+            w5.to_function()
+            w5.shift_x(3.0)
+            w5.scale_x(2.0)
+            fv2 = np.asarray(w5.to_function()(np.asarray(w5.get()[0], dtype=float)), dtype=float)
+            if fv2.shape == fv.shape and np.all(np.isfinite(fv2)):
+                fv = np.where(np.abs(fv2 - y0) > np.abs(fv - y0), fv2, fv)      # record the worse of the two answers per sample
             fs = proc.spline_smooth(x0, y0, s)(x0)
             warned[0] = any("splrep" in str(r.message).lower() or "fitpack" in str(r.message).lower() or "s too small" in str(r.message).lower()
                             or issubclass(r.category, RuntimeWarning) for r in rec)
